@@ -1782,7 +1782,11 @@ fn pep440_roundtrip_family(out: &mut Out) {
                  ("-4294967296", ".post4294967296"), (".post4294967296", ".post4294967296"), ("-00000000004", ".post4"), (".post000000000006", ".post6")];
     let devs = [("", ""), (".dev", ".dev0"), ("dev3", ".dev3"), ("-DEV_03", ".dev3"), (".dev4294967296", ".dev4294967296"), (".dev00000000007", ".dev7")];
     let locals = [("", ""), ("+abc", "+abc"), ("+ABC.1", "+abc.1"), ("+a-b_c", "+a.b.c"), ("+01.x", "+1.x"), ("+4294967296", "+4294967296"), ("+0A.00", "+0a.0"), ("+00000000000000000000001", "+1"),
-                  ("+04294967296", "+4294967296"), ("+x.00099999999999_Y", "+x.99999999999.y")];
+                  ("+04294967296", "+4294967296"), ("+x.00099999999999_Y", "+x.99999999999.y"),
+                  // a zero-padded numeric part above u64::MAX (a strip through parse::<u64>() shows only there) and text labels longer than 63 / 64 characters (seeds V09_1, V09_2)
+                  ("+00099999999999999999999", "+99999999999999999999"), ("+abc.0018446744073709551616", "+abc.18446744073709551616"),
+                  ("+ccccccccccccccccccccccccccccccccccccccccccccccccccccccccccccccccx", "+ccccccccccccccccccccccccccccccccccccccccccccccccccccccccccccccccx"),
+                  ("+Aaaaaaaaaaaaaaaaaaaaaaaaaaaaaaaaaaaaaaaaaaaaaaaaaaaaaaaaaaaaaaaaaaaaaaaaaaaaaaaaaaaaaaaaaaaaaaaaaaaaaaaaaaaaaaaaaaaaaaaaaaaaaaaaaaaaaaaaaa.7", "+aaaaaaaaaaaaaaaaaaaaaaaaaaaaaaaaaaaaaaaaaaaaaaaaaaaaaaaaaaaaaaaaaaaaaaaaaaaaaaaaaaaaaaaaaaaaaaaaaaaaaaaaaaaaaaaaaaaaaaaaaaaaaaaaaaaaaaaaaa.7")];
     let over = |s: &str| s.split(|c: char| !c.is_ascii_digit()).any(|run| {
         let t = run.trim_start_matches('0');
         t.len() > 10 || (t.len() == 10 && t > "4294967295")
@@ -1859,7 +1863,9 @@ fn tag_max_family(out: &mut Out, semver: bool) {
     let pool: Vec<&str> = if semver {
         vec!["1.0.0", "v1.0.0", "1.0.0-alpha", "1.0.0-alpha.1", "1.0.0-alpha.beta", "1.0.0-beta", "1.0.0-beta.2", "1.0.0-beta.11", "1.0.0-rc.1",
              "1.0.0+build", "1.0.1-0", "0.9.9", "1.0.0-1", "1.0.0-a", "1.0.0-A", "2.0.0-0", "1.10.0", "1.9.0", "not-a-version", "1.0",
-             "0.9.0-20240115123045123456", "1.0.0-rc2", "1.0.0-rc10"]
+             "0.9.0-20240115123045123456", "1.0.0-rc2", "1.0.0-rc10",
+             // a stable tag and a pre-release of a later version whose number crosses a digit-count boundary (a textual shortcut on the base part shows only there: seed V10_2)
+             "1.2.9", "v1.2.10-rc.1", "1.10.0-rc.1"]
     } else {
         vec!["1.0", "v1.0.0", "1.0a1", "1.0.alpha.1", "1.0b2", "1.0rc1", "1.0.post1", "1.0-1", "1.0.dev1", "1.0a1.dev1", "1.0.post1.dev2", "1!0.1", "0!1.0",
              "1.0+abc", "1.0+abc.1", "1.0+1", "1.0.1", "1.10", "1.9", "not-a-version", "1.0a"]
